@@ -15,6 +15,12 @@ def plain(test, sq=1, st=16, **kw):
     return d
 
 
+def fuzz(test, secs_t=90, **kw):
+    d = dict(test=test, kind="fuzz", tiers=(T,), fuzztime={Q: 5, T: secs_t}, shards={Q: 1, T: 1})
+    d.update(kw)
+    return d
+
+
 SPECS = {}
 
 SPECS["C20"] = dict(
@@ -39,6 +45,7 @@ SPECS["C20"] = dict(
               env={"C20_DEPTH": {Q: 5, T: 6}, "C20_DEPTH_EMPTY": {Q: 6, T: 8}, "C20_DEPTH_BIG": {Q: 3, T: 4}},
               timeout={Q: 600, T: 3000}),
         rapid("TestC20Random", 1500, 40000, sq=2, st=16),
+        fuzz("FuzzC20Random", 60),
     ],
     floors={"wrapped": (0.2, "rand_cases"), "grew_10pct": (0.05, "rand_cases")},
     assumptions=["Discard is only called with n >= 0 (its callers pass counts); negative n is outside the documented domain",
@@ -191,6 +198,7 @@ SPECS["C07"] = dict(
         plain("TestC07Exhaustive", sq=4, st=16, env={"C07_MAXN": {Q: 5, T: 6}}),
         rapid("TestC07Sampled", 1500, 40000, sq=2, st=16),
         plain("TestC07KnownFresh", sq=1, st=1),
+        fuzz("FuzzC07Sampled", 90),
     ],
 )
 
@@ -237,6 +245,8 @@ SPECS["C05"] = dict(
         rapid("TestC05Core", 4000, 150000, sq=2, st=16),
         rapid("TestC05FECDecoder", 2000, 60000, sq=1, st=8),
         rapid("TestC05Session", 350, 10000, sq=4, st=16),
+        fuzz("FuzzC05Core", 120),
+        fuzz("FuzzC05FECDecoder", 60),
     ],
 )
 
